@@ -74,15 +74,15 @@ def plan(tier, seed):
         for col in (False, True):
             for rg in (True, False):
                 gs.append(Group('%s[colour=%s,requires_grad=%s]' % (nm, col, rg), S.g_scat_j1, (rot, col, rg), functions=[(SLk, nm + '.forward')],
-                                replay=rp('purity', kind='scat')))
+                                replay=rp('purity', kind='scat0')))
         nm2 = 'ScatLayerj2_rot_f' if rot else 'ScatLayerj2_f'
         for rg in (True, False):
             gs.append(Group('%s.forward[requires_grad=%s]' % (nm2, rg), S.g_scat_j2_forward, (rot, rg), functions=[(SLk, nm2 + '.forward')],
-                            replay=rp('purity', kind='scat2')))
+                            replay=rp('purity', kind='scat2_0')))
     gs.append(Group('loaders[COEFF_CACHE]', T.g_loaders, functions=[('dtcwt.coeffs', '_load_from_file')]))
     gs.append(Group('READS/STATE syntactic scan', P.g_reads, replay=rp('history_order', family='all')))
     gs.append(Group('canary:write-through-contiguous()-of-an-argument', g_frame_canary, canary=True))
-    kinds = ['dwt1d', 'idwt1d', 'dwt2d', 'idwt2d', 'swt', 'dtcwt', 'idtcwt', 'scat', 'scat2']
+    kinds = ['dwt1d', 'idwt1d', 'dwt2d', 'idwt2d', 'swt', 'dtcwt', 'idtcwt', 'scat', 'scat2', 'scat0', 'scat2_0']
     jobs = [{'fn': 'purity', 'cfg': {'kind': k}, 'grid': {'x': [0, 1] if dense else [0]}} for k in kinds]
     jobs += [{'fn': 'history_order', 'cfg': {'family': f}, 'grid': {'x': [0]}} for f in ('dwt1d', 'dwt2d', 'swt', 'dtcwt', 'scat')]
     return {
